@@ -43,7 +43,8 @@ STUBS = ['coroutines are driven with send(None); uncontended asyncio locks never
          'sessions are attached to ConnectionState directly (login is C09)']
 OUTSIDE = ['maildir rescans', 'histories longer than the bound', 'more than two sessions']
 
-OPS = ['append', 'store_seen', 'delete', 'noop', 'fetch_body', 'copy_self', 'uidstore_flagged', 'move_seq', 'store_unseen']
+OPS = ['append', 'store_seen', 'delete', 'noop', 'fetch_body', 'copy_self', 'uidstore_flagged', 'move_seq', 'store_unseen',
+       'store_seen_silent']
 _g: dict = {}
 
 
@@ -67,7 +68,7 @@ def program(g, sim, base, m, script, check, oracle='both'):
         # what the client means by sequence number a right now
         target = None
         known = False
-        if a is not None and op in ('store_seen', 'store_unseen', 'fetch_body', 'move_seq', 'delete'):
+        if a is not None and op in ('store_seen', 'store_unseen', 'fetch_body', 'move_seq', 'delete', 'store_seen_silent'):
             ents = w.clients[s].entries
             for i, e in enumerate(ents, 1):
                 if a == i:
@@ -83,6 +84,8 @@ def program(g, sim, base, m, script, check, oracle='both'):
             w.store(s, [a], [Seen], 'ADD')
         elif op == 'store_unseen':
             w.store(s, [a], [Seen], 'DELETE')
+        elif op == 'store_seen_silent':
+            w.store(s, [a], [Seen], 'ADD', silent=True)
         elif op == 'delete':
             w.store(s, [a], [Deleted], 'ADD', silent=True)
             w.expunge(s)
@@ -97,7 +100,7 @@ def program(g, sim, base, m, script, check, oracle='both'):
         elif op == 'move_seq':
             w.copy(s, [a], 'Other', move=True)
         after = w.dump('INBOX')
-        if known and op in ('store_seen', 'fetch_body'):
+        if known and op in ('store_seen', 'fetch_body', 'store_seen_silent'):
             # only the message the client addressed may have gained \Seen
             for uid, flags, _ in after:
                 was = None
@@ -132,6 +135,86 @@ def program(g, sim, base, m, script, check, oracle='both'):
     return None
 
 
+REPLACE_HOW = ['rename_inbox', 'delete_create', 'rename_create']
+REPLACE_OPS = ['noop', 'check', 'fetch_flags', 'store_seen', 'uidstore_flagged', 'expunge', 'fetch_body', 'copy']
+
+
+def replaced(g, sim, base, how, op, seq, check):
+    """session 0 has a mailbox selected; session 1 takes it away and a *new* mailbox appears under the same name
+    (RENAME INBOX leaves a new empty INBOX; DELETE + CREATE; RENAME away + CREATE), into which a message is delivered.
+    Then session 0 issues one command.  It must not go on as if nothing had happened: either it is told (BYE / NO), or
+    what its client believes afterwards is the mailbox that now has that name; and a command addressing a message of
+    the old mailbox must not touch a message of the new one.  returns error|None"""
+    name = 'INBOX' if how == 'rename_inbox' else 'Other'
+    w = sim.World(g, 2, base_uid=base, check=check)
+    for _ in range(2):
+        w.append(1, name)
+    w.select(0, name)
+    w.fetch(0, [(1, '*')], [b'FLAGS'])
+    M, EO = g['Mailbox'], g['ExtensionOptions']
+    if how == 'rename_inbox':
+        r = w.run(1, g['RenameCommand'](w.tag(), M('INBOX'), M('Away'), EO.empty()))
+    elif how == 'delete_create':
+        r = w.run(1, g['DeleteCommand'](w.tag(), M('Other')))
+        if r[0] == 'OK':
+            r = w.run(1, g['CreateCommand'](w.tag(), M('Other'), EO.empty()))
+    else:
+        r = w.run(1, g['RenameCommand'](w.tag(), M('Other'), M('Away'), EO.empty()))
+        if r[0] == 'OK':
+            r = w.run(1, g['CreateCommand'](w.tag(), M('Other'), EO.empty()))
+    if r[0] != 'OK':
+        return None            # the backend refuses: nothing was replaced
+    w.append(1, name)          # a message of the new mailbox
+    before = w.dump(name)
+    Seen, Flagged, Deleted = g['Seen'], g['Flagged'], g['Deleted']
+    first_uid = w.clients[0].entries[0]['uid'] if w.clients[0].entries else None
+    if op == 'noop':
+        r = w.noop(0)
+    elif op == 'check':
+        r = w.check_cmd(0)
+    elif op == 'fetch_flags':
+        r = w.fetch(0, [seq], [b'FLAGS'])
+    elif op == 'store_seen':
+        r = w.store(0, [seq], [Seen, Deleted], 'ADD')
+    elif op == 'uidstore_flagged':
+        r = w.store(0, [(first_uid, '*')] if first_uid is not None else [1], [Flagged], 'ADD', uid=True)
+    elif op == 'expunge':
+        r = w.expunge(0)
+    elif op == 'fetch_body':
+        r = w.fetch(0, [seq], [b'BODY[]'])
+    else:
+        r = w.copy(0, [seq], 'Away' if how != 'delete_create' else 'INBOX')
+    after = w.dump(name)
+    if r[0] in ('BYE', 'NO', 'BAD'):
+        if [(u, f) for u, f, _ in after] != [(u, f) for u, f, _ in before]:
+            return '%s after %s was refused (%s) but changed the new mailbox' % (op, how, r[0])
+        return None
+    # answered OK: the client was never told about the new mailbox's message, so the command cannot have meant it
+    told = len(w.clients[0].entries)
+    if [(u, f) for u, f, _ in after] != [(u, f) for u, f, _ in before]:
+        return '%s after %s answered OK and changed a message of the new mailbox the client had never been told about' % (op, how)
+    err = w.check_converged(0, name)
+    if err:
+        return '%s after %s answered OK, but the session goes on with the old mailbox (%d messages): %s' % (op, how, told, err)
+    return None
+
+
+def _h_replaced():
+    def fn(eng):
+        from pysymex import SymUid, B, AND, Outcome
+        base = eng.fresh_int('base', 0, cls=SymUid)
+        how = REPLACE_HOW[eng.choose('how', len(REPLACE_HOW))]
+        op = REPLACE_OPS[eng.choose('op', len(REPLACE_OPS))]
+        seq = eng.fresh_int('seq', 1, 3, cls=SymUid)
+        obligations = []
+        wit = lambda mdl: {'base': base.eval(mdl), 'how': how, 'op': op, 'seq': seq.eval(mdl)}  # noqa: E731
+        err = replaced(_g, _g['_sim'], base, how, op, seq, lambda c, msg='': obligations.append(B(c)))
+        if err is not None:
+            return Outcome(False, witness=wit, info=err)
+        return Outcome(AND(*obligations), witness=wit)
+    return fn
+
+
 def _harness(m, d, ops, oracle='both'):
     def fn(eng):
         from pysymex import SymUid, B, AND, Outcome
@@ -142,7 +225,7 @@ def _harness(m, d, ops, oracle='both'):
             s = eng.choose('s%d' % t, 2)
             op = ops[o]
             a = None
-            if op in ('store_seen', 'store_unseen', 'delete', 'fetch_body', 'copy_self', 'move_seq'):
+            if op in ('store_seen', 'store_unseen', 'delete', 'fetch_body', 'copy_self', 'move_seq', 'store_seen_silent'):
                 a = eng.fresh_int('a%d' % t, 1, m + d + 1, cls=SymUid)
             elif op == 'uidstore_flagged':
                 off = eng.fresh_int('a%d' % t, 0, m + d + 1)
@@ -170,10 +253,14 @@ def harnesses(tier):
     else:
         cfgs = [(1, 4, ['store_seen', 'store_unseen', 'delete', 'noop', 'append', 'fetch_body']),
                 (2, 3, OPS), (2, 4, ['store_seen', 'store_unseen', 'delete', 'noop', 'append'])]
-    return [Harness('history[m=%d,d=%d,ops=%d]' % (m, d, len(ops)), _harness(m, d, ops),
-                    {'initial_messages': m, 'history_depth': d, 'ops': ops, 'sessions': 2,
-                     'sequence_numbers': '1..%d symbolic' % (m + d + 1), 'uid_base': 'unbounded'},
-                    replay='history', task_budget=40) for m, d, ops in cfgs]
+    hs = [Harness('history[m=%d,d=%d,ops=%d]' % (m, d, len(ops)), _harness(m, d, ops),
+                  {'initial_messages': m, 'history_depth': d, 'ops': ops, 'sessions': 2,
+                   'sequence_numbers': '1..%d symbolic' % (m + d + 1), 'uid_base': 'unbounded'},
+                  replay='history', task_budget=40) for m, d, ops in cfgs]
+    hs.append(Harness('mailbox_replaced', _h_replaced(),
+                      {'how': REPLACE_HOW, 'then': REPLACE_OPS, 'sequence_number': 'symbolic 1..3', 'uid_base': 'unbounded'},
+                      replay='replaced', task_budget=40))
+    return hs
 
 
 def replay(harness, w):
@@ -184,7 +271,10 @@ def replay(harness, w):
     def check(c, msg=''):
         if not c:
             bad.append(msg or 'obligation failed')
-    err = program(g, _sim, w['base'], w['m'], [tuple(x) for x in w['script']], check, w.get('oracle', 'both'))
+    if harness == 'replaced':
+        err = replaced(g, _sim, w['base'], w['how'], w['op'], w['seq'], check)
+    else:
+        err = program(g, _sim, w['base'], w['m'], [tuple(x) for x in w['script']], check, w.get('oracle', 'both'))
     if err:
         bad.append(err)
     return {'violates': bool(bad), 'detail': bad[:3], 'category': (bad[0] if bad else '')[:70]}
